@@ -239,4 +239,25 @@ def serverWideWritesAllowed : List (String × String × String) := [("main.main"
 def fieldWriteCheck (w : String × String × String × String) : Bool :=
   !(serverWideTypes.contains w.2.1) || w.2.2.2 = "local" || serverWideWritesAllowed.contains (w.1, w.2.1, w.2.2.1)
 
+/-! ### what an abort does to the cached inodes (models M8, M8d, M8e assume: it forgets ALL of the transaction's) -/
+
+def branching (k : String) : Bool :=
+  k == "if" || k == "for" || k == "return" || k == "switch" || k == "defer" || k == "goto" || k == "else" || k == "else-if" || k == "other" || k == "break" || k == "continue"
+
+/-- `Abort` reaches `forgetInodes` on every path and before it gives the locks back -/
+def abortForgets (ks : List String) : Bool :=
+  ks.contains "call:forgetInodes" &&
+  !((ks.takeWhile (· != "call:forgetInodes")).any branching) &&
+  !((ks.takeWhile (· != "call:forgetInodes")).contains "call:releaseInodes")
+
+/-- `forgetInodes` is one loop over the transaction's inodes with no way out of it, and no early return -/
+def forgetsAll (ks : List String) : Bool :=
+  ks.head? = some "for" && !ks.contains "return" && !ks.contains "break" && !ks.contains "continue" && !ks.contains "goto" &&
+  ks.getLast? = some "rof"
+
+/-- a refused commit aborts: between the journal's `CommitWait` and the first `return` of `commitWait` stands `Abort` -/
+def refusedCommitAborts (ks : List String) : Bool :=
+  let after := (ks.dropWhile (· != "set:CommitWait")).drop 1
+  ks.contains "set:CommitWait" && (after.takeWhile (· != "return")).contains "call:Abort"
+
 end GoNfsd.Model.Skeleton
